@@ -2,11 +2,18 @@
 (lean/PyCraft/Drive/C19Seq.lean).
 
 usage:  /venv/bin/python harness/xcheck/c19seq_xcheck.py <N> <seed>            prints N lines
-            `request<TAB>expected reply` (random program runs of the REAL AuthenticationToken observed
-            through harness/gen/c19seq.py `observe`, and random JSON texts through the real json module)
+            `request<TAB>expected reply` (random program runs of the REAL AuthenticationToken, every HTTP
+            exchange intercepted at requests.adapters.HTTPAdapter.send by harness/gen/c19seq.py `Net`, and
+            random JSON texts through the real json module); corr/c19.py (`seq_tie`) feeds the requests to the
+            driver binary.  All randomness comes from <seed>.
         /venv/bin/python harness/xcheck/c19seq_xcheck.py <N> <seed> --check    additionally feeds the
-            requests to `PyCraft.Drive.c19seq` (a throw-away Lean main under /tmp, run with
-            `lake env lean --run`) and reports every disagreement; exit status 1 if there is one.
+            requests to the driver binary (lean/.lake/build/bin/driver) and reports every disagreement;
+            exit status 1 if there is one.
+
+Runs as a SUBPROCESS of the check: it replaces HTTPAdapter.send and authentication.uuid.uuid4 while a run is
+observed (both restored in `finally`), and a hang of the code under test ends in the caller's timeout.
+Bounded besides: more than REQUEST_BUDGET HTTP requests in one call end the call (`spin:requests`).
+Exceptions of the code under test that the model has no outcome for become `raised:<Type>`.
 
 Inputs are kept inside the model's stated restrictions: JSON numbers are integers, no lone
 surrogates, object keys distinct; `error` / `errorMessage` members of error replies are not lists or
@@ -25,8 +32,26 @@ sys.path.insert(0, os.path.dirname(HERE))
 from gen import c19seq as G          # noqa: E402
 
 
+REQUEST_BUDGET = 20
+
+
+class Spin(BaseException):
+    """the code under test keeps sending requests within one call"""
+
+
+class BudgetLog(list):
+    def append(self, x):
+        if len(self) >= REQUEST_BUDGET:
+            raise Spin('requests')
+        list.append(self, x)
+
+
 def S(s):
     return s.encode('utf-8').hex() or '-'
+
+
+def clean(s):
+    return ''.join(ch if ch.isprintable() and not ch.isspace() and ch not in ';/@' else '_' for ch in str(s))[:80]
 
 
 def Jt(v):
@@ -100,12 +125,15 @@ def rnd_body(rng):
 
 
 def rnd_run(rng):
-    ntok = rng.randrange(0, 4)
+    ntok = rng.choice([0, 1, 1, 2, 2, 3])
     inits = [tuple(rnd_attr(rng) for _ in range(3)) for _ in range(ntok)]
     steps = []
     for _ in range(rng.randrange(0, 7)):
-        i = rng.randrange(0, ntok + 1)
+        # mostly an existing token; now and then a number no token has (the model: `skip`)
+        i = rng.randrange(0, ntok + 1) if ntok == 0 or rng.random() < 0.12 else rng.randrange(ntok)
         op = rng.choice(['authenticate', 'refresh', 'validate', 'invalidate', 'join', 'signout'])
+        if steps and steps[-1][0][0] in ('authenticate', 'refresh') and rng.random() < 0.4:
+            op, i = 'join', steps[-1][0][1]      # what a login does next: join with whatever the token now holds
         if op == 'authenticate':
             call = (op, i, '%032x' % rng.getrandbits(128), rng.choice(STR), rng.choice(STR), rng.random() < 0.3)
         elif op == 'join':
@@ -117,6 +145,10 @@ def rnd_run(rng):
         k = rng.random()
         if k < 0.08:
             reply = None
+        elif k < 0.33 and op in ('authenticate', 'refresh'):
+            # a complete result (the common case in real life), so that later calls see a filled token
+            reply = (200, json.dumps({'accessToken': rng.choice(['acc-B', 'x', '']), 'clientToken': rng.choice(['cli-B', 'y', '']),
+                                      'selectedProfile': {'id': rng.choice(['id-B', '', None]), 'name': rng.choice(['B\xf6b', '', None])}}).encode())
         else:
             status = rng.choice([200, 204, 400, 401, 403, 404, 429, 500, 503]) if rng.random() < 0.6 else \
                 rng.choice([200, 200, 204])
@@ -160,7 +192,7 @@ def observe_raw(inits, steps):
         toks = [A.AuthenticationToken(u, a, c) for (u, a, c) in inits]
         obs = []
         for call, reply in steps:
-            net.reply, net.log = reply, []
+            net.reply, net.log = reply, BudgetLog()
             kind = call[0]
             if kind == 'signout':
                 fn = lambda: A.AuthenticationToken.sign_out(call[1], call[2])
@@ -180,28 +212,36 @@ def observe_raw(inits, steps):
                     fn = getattr(t, kind)
             try:
                 r = fn()
-                out = 'ret:1' if r is True else 'ret:none' if r is None else 'ret:0' if r is False else 'ret:%r' % (r,)
+                out = 'ret:1' if r is True else 'ret:none' if r is None else 'ret:0' if r is False else 'ret:%s' % clean(repr(r))
+            except Spin:
+                out = 'spin:requests'
             except YggdrasilError as e:
-                a0 = e.args[0] if e.args else None
-                if isinstance(e.yggdrasil_error, (list, dict)) or isinstance(e.yggdrasil_message, (list, dict)):
-                    at = '?'
-                else:
-                    at = '~' if a0 is None else S(a0)
-                out = 'ygg:%s:%s:%s:%s:%s' % ('~' if e.status_code is None else e.status_code,
-                                              Jt(e.yggdrasil_error), Jt(e.yggdrasil_message),
-                                              Jt(e.yggdrasil_cause), at)
+                try:
+                    a0 = e.args[0] if e.args else None
+                    if isinstance(e.yggdrasil_error, (list, dict)) or isinstance(e.yggdrasil_message, (list, dict)):
+                        at = '?'
+                    else:
+                        at = '~' if a0 is None else S(a0)
+                    out = 'ygg:%s:%s:%s:%s:%s' % ('~' if e.status_code is None else e.status_code,
+                                                  Jt(e.yggdrasil_error), Jt(e.yggdrasil_message),
+                                                  Jt(e.yggdrasil_cause), at)
+                except Exception as e2:      # attributes missing / not JSON values: not a modelled outcome
+                    out = 'raised:YggdrasilError!%s' % type(e2).__name__
             except requests.ConnectionError:
                 out = 'transport'
             except ValueError as e:
+                a0 = e.args[0] if e.args else None
                 why = {'accessTokenNotSet': 'access', 'clientTokenNotSet': 'client'}.get(
-                    G.VALUE_WHY.get(e.args[0] if e.args else None), 'json')
+                    G.VALUE_WHY.get(a0 if isinstance(a0, str) else None), 'json')
                 out = 'value:' + why
             except KeyError as e:
-                out = 'key:' + S(e.args[0])
+                out = 'key:' + S(e.args[0]) if e.args and isinstance(e.args[0], str) else 'raised:KeyError!%s' % clean(e.args)
             except TypeError:
                 out = 'type'
             except AttributeError:
                 out = 'attr'
+            except Exception as e:
+                out = 'raised:%s' % type(e).__name__
             if len(net.log) > 1:
                 out += '!%d-requests' % len(net.log)
             if net.log:
@@ -210,8 +250,12 @@ def observe_raw(inits, steps):
             else:
                 rq = 'none'
             obs.append(out + '/' + rq)
-        final = [','.join(Jt(x) for x in (t.username, t.access_token, t.client_token, t.profile.id_, t.profile.name))
-                 for t in toks]
+        final = []
+        for t in toks:
+            try:
+                final.append(','.join(Jt(x) for x in (t.username, t.access_token, t.client_token, t.profile.id_, t.profile.name)))
+            except Exception as e:
+                final.append('raised:%s' % type(e).__name__)
         return 'ok obs=%s final=%s' % (';'.join(obs) or '-', ';'.join(final) or '-')
     finally:
         A.uuid.uuid4 = real_uuid4
@@ -264,7 +308,7 @@ def json_expected(text):
 
 
 def cases(n, seed):
-    rng = random.Random(seed)
+    rng = random.Random('c19seq/%s' % seed)
     out = []
     while len(out) < n:
         if rng.random() < 0.6:
@@ -282,30 +326,15 @@ def cases(n, seed):
     return out
 
 
-MAIN = '''import PyCraft.Drive.C19Seq
-partial def loop (h : IO.FS.Stream) (out : IO.FS.Stream) : IO Unit := do
-  let line ← h.getLine
-  if line.isEmpty then return ()
-  let toks := (line.trimAscii.toString.splitOn " ").filter (· ≠ "")
-  out.putStrLn ((PyCraft.Drive.c19seq toks).getD "bad-op")
-  loop h out
-def main : IO Unit := do loop (← IO.getStdin) (← IO.getStdout)
-'''
-
-
 if __name__ == '__main__':
     n = int(sys.argv[1]) if len(sys.argv) > 1 else 50
-    seed = int(sys.argv[2]) if len(sys.argv) > 2 else 1
+    seed = sys.argv[2] if len(sys.argv) > 2 else '1'
     cs = cases(n, seed)
     if '--check' not in sys.argv:
-        for rq, exp in cs:
-            print(rq + '\t' + exp)
+        sys.stdout.write(''.join(rq + '\t' + exp + '\n' for rq, exp in cs))
         sys.exit(0)
-    os.makedirs('/tmp/c19seq_x', exist_ok=True)
-    with open('/tmp/c19seq_x/drv.lean', 'w') as f:
-        f.write(MAIN)
-    p = subprocess.run(['lake', 'env', 'lean', '--run', '/tmp/c19seq_x/drv.lean'], cwd='/verif/lean',
-                       input='\n'.join(rq for rq, _ in cs) + '\n', capture_output=True, text=True)
+    driver = os.path.join(os.path.dirname(os.path.dirname(HERE)), 'lean', '.lake', 'build', 'bin', 'driver')
+    p = subprocess.run([driver], input='\n'.join(rq for rq, _ in cs) + '\n', capture_output=True, text=True, timeout=3000)
     got = p.stdout.split('\n')
     bad = 0
     if len(got) < len(cs):
@@ -315,6 +344,6 @@ if __name__ == '__main__':
         if g != exp:
             bad += 1
             print('DISAGREE\n  request ', rq[:400], '\n  real    ', exp[:600], '\n  model   ', g[:600])
-    print('%d cases, %d disagreements%s' % (len(cs), bad, '' if p.returncode == 0 else ' (lean exit %d: %s)' % (
+    print('%d cases, %d disagreements%s' % (len(cs), bad, '' if p.returncode == 0 else ' (driver exit %d: %s)' % (
         p.returncode, p.stderr[:300])))
     sys.exit(1 if bad or p.returncode else 0)
